@@ -252,4 +252,40 @@ theorem cutFace_commutes {ds s : DSetData} (hv : ValidSet ds) (hdim : ds.dim = 3
   · obtain ⟨ho1, ho2, ho3⟩ := hold k hk
     rw [Z1 k hk, B 3 _ (by omega) (by omega) ho1 ho2, ho3, Z3 k hk, Z1 _ hl.2.2]
 
+/-! ### witnesses for the non-vacuity examples -/
+
+/-- Boolean form of `ValidSet` -/
+def validSetB (s : DSetData) : Bool :=
+  s.op.size == s.size * (s.dim + 1) &&
+  (List.range (s.dim + 1)).all fun i => (List.range s.size).all fun d0 =>
+    1 ≤ s.opU i (d0 + 1) && s.opU i (d0 + 1) ≤ s.size && s.opU i (s.opU i (d0 + 1)) == d0 + 1
+
+theorem validSetB_sound {s : DSetData} (h : validSetB s = true) : ValidSet s := by
+  unfold validSetB at h
+  simp only [Bool.and_eq_true, beq_iff_eq, List.all_eq_true, List.mem_range, decide_eq_true_eq] at h
+  obtain ⟨h1, h2⟩ := h
+  refine ⟨h1, ?_, ?_⟩
+  · intro i d hi hd1 hd2
+    have := h2 i (by omega) (d - 1) (by omega)
+    rw [show d - 1 + 1 = d by omega] at this
+    exact ⟨this.1.1, this.1.2⟩
+  · intro i d hi hd1 hd2
+    have := h2 i (by omega) (d - 1) (by omega)
+    rw [show d - 1 + 1 = d by omega] at this
+    exact this.2
+
+/-- eight chambers (a, b, c) ∈ {0,1}³ numbered 1 + a + 2b + 4c; s0 flips a, s1 flips b,
+    s2 flips a and b, s3 flips c -/
+def ex8 : DSetData :=
+  { size := 8, dim := 3,
+    op := #[2, 3, 4, 5,  1, 4, 3, 6,  4, 1, 2, 7,  3, 2, 1, 8,  6, 7, 8, 1,  5, 8, 7, 2,  8, 5, 6, 3,  7, 6, 5, 4] }
+
+theorem ex8_valid : ValidSet ex8 := validSetB_sound (by decide)
+
+theorem isOk_exists {α} {x : Outcome α} (h : x.isOk = true) : ∃ a, x = .ok a := by
+  cases x with
+  | ok a => exact ⟨a, rfl⟩
+  | err => cases h
+  | panic => cases h
+
 end DSymVerif.Simp
